@@ -150,7 +150,7 @@ def main():
         "setup_cmd": "./setup.sh",
         "hooks": {
             "guard": "cfg(sourcemap_verif)",
-            "enable": "RUSTFLAGS --cfg sourcemap_verif (set in /verif/harness/.cargo/config.toml) for svmc; --cfg 'sourcemap_verif=\"loom\"' for the loom shadow package (svloom)",
+            "enable": "RUSTFLAGS --cfg sourcemap_verif (set in /verif/harness/.cargo/config.toml) for svmc; --cfg 'sourcemap_verif=\"loom\"' for the loom shadow package (svloom) and --cfg 'sourcemap_verif=\"shuttle\"' for the shuttle shadow package (svshuttle)",
             "baseline_off_cmd": "cd /repo && cargo test --workspace --no-fail-fast --offline",
             "source_commits": hooks_commits,
             "add_only": True,
